@@ -3,6 +3,7 @@ Numbers that describe a *run* (obligations, queries, solver time) are never kept
 measured by bin/check from Kani's output on every run."""
 
 MEM_KB = 16_000_000          # ulimit -v per Kani/CBMC process
+MAX_REPLAYS = 3             # distinct failing sites replayed natively per run
 MAX_JOBS = 14                # 62 GB / ~4 GB typical, 16 cores
 TIMEOUT = dict(quick=900, thorough=2400, replay=1200, native=300)
 
